@@ -40,3 +40,11 @@ Theorem c01_fault_free_requests_complete : forall sc tn thc tt, FF sc tn thc tt 
   tn = length (in_msgs (in_recv sc)) -> sent_out s = in_msgs (in_recv sc).
 Proof. exact fault_free_requests_complete. Qed.
 Print Assumptions c01_fault_free_requests_complete.
+
+(* byte identity (part bytes): the executable statement evaluated on every observed call says exactly this *)
+From GB Require Import Model.ForwardRun Proofs.CheckerProofs.
+Theorem c01_bytes_statement_exact : forall input impl,
+  prop_c01_bytes input impl = None <->
+  nthv 0 impl = nthv 1 input /\ nthv 1 impl = nthv 2 input /\ as_Z (nthv 2 impl) = 0.
+Proof. exact c01_bytes_exact. Qed.
+Print Assumptions c01_bytes_statement_exact.
